@@ -979,6 +979,8 @@ class Interp:
         if isinstance(n.op, ast.Invert):
             if isinstance(v, SV) and z3.is_bool(v.e):
                 return sv_not(v)
+            if isinstance(v, PObj):  # user-defined __invert__ (rv_ltl.B4, C11)
+                return self.bm.unary_object(self, "__invert__", v)
         raise PyvcError("unary operator unsupported")
 
     BINOPS = {
